@@ -1,5 +1,6 @@
 import Golib.Model.C10Ring
 import Golib.Model.C10Sync
+import Golib.Model.C10Large
 
 namespace Golib.C10
 open Golib.Proto
@@ -8,6 +9,7 @@ open Golib.Proto
 def runCase (hdr : List String) (ops : List String) : List String :=
   match hdr with
   | "ring" :: rest => runRingCase rest ops
+  | "ringL" :: rest => runLargeCase rest ops
   | "sync" :: rest => runSyncCase rest ops
   | "synccap" :: rest => runCapCase rest ops
   | _ => "bad-op" :: ops.map fun _ => "bad-op"
